@@ -650,9 +650,13 @@ pub fn worker_main(args: &Args, w: usize, n: usize) -> ! {
             println!(
                 "{}",
                 json!({"t":"case","si":si,"scenario":s.id,"i":i,"inject":inject.encode(),"kind":inject.kind(),
-                       "status":status,"fired":did_fire,"fired_at":fired,"state":state,"violation":violation,
-                       "leftover_tmp":leftovers})
+                       "status":status,"fired":did_fire,"fired_at":fired,"state":state,"violation":violation})
             );
+            // whether a temporary file is still around when a failing creator process exits depends on
+            // real thread timing at exit: reported as a statistic, kept out of the deterministic record
+            if leftovers > 0 {
+                println!("{}", json!({"t":"stat","leftover_tmp":leftovers}));
+            }
             let _ = std::fs::remove_dir_all(&case_dir);
         }
         let _ = std::fs::remove_dir_all(&sdir);
@@ -681,6 +685,7 @@ pub fn parent_main(args: &Args) -> ! {
             simcore::harness_error(&format!("worker {} failed: {}", o.index, o.status));
         }
     }
+    let mut leftover = 0u64;
     let mut scen: BTreeMap<u64, Value> = BTreeMap::new();
     let mut recs: Vec<Value> = vec![];
     for o in outs {
@@ -690,15 +695,18 @@ pub fn parent_main(args: &Args) -> ! {
                 scen.entry(v["si"].as_u64().unwrap()).or_insert(v);
             } else if v["t"] == "case" {
                 recs.push(v);
+            } else if v["t"] == "stat" {
+                leftover += v["leftover_tmp"].as_u64().unwrap_or(0);
             }
         }
     }
     recs.sort_by_key(|r| (r["si"].as_u64().unwrap_or(0), r["i"].as_u64().unwrap_or(0)));
+    let run_digest = report::digest_records(recs.iter());
+    println!("DIGEST {id} {run_digest}");
     let mut states: BTreeMap<String, u64> = BTreeMap::new();
     let mut statuses: BTreeMap<String, u64> = BTreeMap::new();
     let mut violations: Vec<(String, Value)> = vec![];
     let mut known_hits: BTreeMap<String, (u64, String)> = BTreeMap::new();
-    let mut leftover = 0u64;
     for r in &recs {
         ev.evaluations += 1;
         let fired = r["fired"].as_bool().unwrap_or(false);
@@ -713,7 +721,6 @@ pub fn parent_main(args: &Args) -> ! {
         }
         *states.entry(r["state"].as_str().unwrap_or("?").to_string()).or_insert(0) += 1;
         *statuses.entry(r["status"].as_str().unwrap_or("?").to_string()).or_insert(0) += 1;
-        leftover += r["leftover_tmp"].as_u64().unwrap_or(0);
         if ev.evaluations % 4999 == 1 {
             ev.sample(r.clone());
         }
@@ -739,6 +746,7 @@ pub fn parent_main(args: &Args) -> ! {
     ev.extra.insert("child_endings".into(), json!(statuses));
     ev.extra.insert("leftover_temp_files".into(), json!(leftover));
     ev.extra.insert("workers".into(), json!(n));
+    ev.extra.insert("run_digest".into(), json!(run_digest));
     ev.extra.insert(
         "real_vs_stub".into(),
         json!({"real": ["BasicCreator, ContentPackCreator threads, DirectoryPackCreator, tempfile rename", "kernel file system (tmpfs) as the model of what survives process death"],
